@@ -1,4 +1,40 @@
+mod api;
+mod h_core;
+mod instances;
+mod runner;
 mod selftest;
+mod varc;
+mod world;
+
+use arc_swap_verif_rt as rt;
+
+fn parse_cfg(args: &[String]) -> rt::Config {
+    let mut c = rt::Config::default();
+    let mut i = 0;
+    while i < args.len() {
+        let v = |i: usize| args.get(i + 1).cloned().unwrap_or_default();
+        match args[i].as_str() {
+            "--p" => c.p = v(i).parse().unwrap(),
+            "--s" => c.s = v(i).parse().unwrap(),
+            "--f" => c.f = v(i).parse().unwrap(),
+            "--model" => {
+                c.model = match v(i).as_str() {
+                    "m1" => rt::Model::M1,
+                    "m2" => rt::Model::M2,
+                    "sc" => rt::Model::Sc,
+                    x => panic!("unknown model {}", x),
+                }
+            }
+            "--step-cap" => c.step_cap = v(i).parse().unwrap(),
+            _ => {
+                i += 1;
+                continue;
+            }
+        }
+        i += 2;
+    }
+    c
+}
 
 fn main() {
     let args: Vec<String> = std::env::args().collect();
@@ -7,8 +43,71 @@ fn main() {
             let ok = selftest::selftest();
             std::process::exit(if ok { 0 } else { 2 });
         }
+        Some("list") => {
+            for i in instances::all() {
+                println!("{:28} size={} props={:?}  {}", i.name, i.size, i.props, i.alphabet);
+            }
+        }
+        Some("trace") => {
+            // vh trace <instance> <choices comma separated> [cfg]
+            let name = args.get(2).cloned().unwrap_or_default();
+            let choices: Vec<u16> = args.get(3).map(|s| s.split(',').filter(|x| !x.is_empty()).map(|x| x.parse().unwrap()).collect()).unwrap_or_default();
+            let cfg = parse_cfg(&args[3..]);
+            for inst in instances::all() {
+                if inst.name == name {
+                    let res = runner::replay_local(&inst, &cfg, &choices);
+                    for l in &res.trace {
+                        println!("{}", l);
+                    }
+                    if let Some(v) = &res.violation {
+                        println!("VIOLATION {} [{}] {}", v.property, v.oracle, v.message);
+                    }
+                }
+            }
+        }
+        Some("run") => {
+            let pat = args.get(2).cloned().unwrap_or_default();
+            let cfg = parse_cfg(&args[3..]);
+            let deciding = args.iter().position(|a| a == "--deciding").map(|i| args[i + 1].clone());
+            let mut bad = false;
+            for inst in instances::all() {
+                if !inst.name.contains(&pat) {
+                    continue;
+                }
+                let t = std::time::Instant::now();
+                let r = runner::run_local(&inst, &cfg, &[], None, deciding.as_deref());
+                println!(
+                    "{:28} execs={:8} nodes={:8} steps={:10} maxsteps={:4} maxcp={:3} outcomes={:4} complete={} dev={:?} others={:?} callsteps={:?} nodes={} {:.2}s",
+                    inst.name,
+                    r.executions,
+                    r.nodes,
+                    r.steps,
+                    r.max_steps,
+                    r.max_choice_points,
+                    r.outcomes.len(),
+                    r.complete,
+                    r.max_deviations,
+                    r.others,
+                    r.max_call_steps,
+                    r.max_nodes,
+                    t.elapsed().as_secs_f64()
+                );
+                if let Some(v) = r.deciding.as_ref().or(r.first_other.as_ref()) {
+                    bad = true;
+                    println!("  VIOLATION {} [{}] {}", v.property, v.oracle, v.message);
+                    println!("  choices={:?}", v.choices);
+                    if args.iter().any(|a| a == "--trace") {
+                        let res = runner::replay_local(&inst, &cfg, &v.choices);
+                        for l in &res.trace {
+                            println!("    {}", l);
+                        }
+                    }
+                }
+            }
+            std::process::exit(if bad { 1 } else { 0 });
+        }
         _ => {
-            eprintln!("usage: vh selftest | ...");
+            eprintln!("usage: vh selftest | list | run <pattern> [--p N --s N --f N --model m1|m2|sc] [--deciding Cxx] [--trace]");
             std::process::exit(2);
         }
     }
